@@ -928,4 +928,48 @@ pub fn generate(seed: u64, thorough: bool, emit: &mut dyn FnMut(String)) {
         emit(format!("lu {kind} {s}"));
         emit(format!("plu {kind} {s}"));
     }
+    // ragged rows whose lengths add up to rows x len(first row) (a length check on the flattened data alone would
+    // re-cut them into a grid): every composition of the total for 2..4 rows of first-row length 1..4
+    for r in 2..=4usize {
+        for w in 1..=4usize {
+            let total = r * w;
+            // remaining rows share total - w
+            let rest = total - w;
+            let mut lens_list: Vec<Vec<usize>> = Vec::new();
+            fn comps(left: usize, rows: usize, cur: &mut Vec<usize>, out: &mut Vec<Vec<usize>>) {
+                if rows == 1 {
+                    cur.push(left);
+                    out.push(cur.clone());
+                    cur.pop();
+                    return;
+                }
+                for a in 0..=left {
+                    cur.push(a);
+                    comps(left - a, rows - 1, cur, out);
+                    cur.pop();
+                }
+            }
+            comps(rest, r - 1, &mut vec![], &mut lens_list);
+            for (j, rest_lens) in lens_list.iter().enumerate() {
+                if rest_lens.iter().all(|l| *l == w) {
+                    continue; // the rectangular one
+                }
+                // keep the quick tier small: every composition for r <= 3, a sample for r = 4
+                if r == 4 && scale == 1 && j % 7 != 0 {
+                    continue;
+                }
+                let mut s = format!("{r}");
+                let mut lens = vec![w];
+                lens.extend(rest_lens.iter().copied());
+                for len in lens {
+                    let row: Vec<f64> = (0..len).map(|_| rng.range(1, 5) as f64).collect();
+                    s.push(' ');
+                    s.push_str(&req_vec_f(&row));
+                }
+                let kind = if j % 2 == 0 { "vvj" } else { "rvvj" };
+                emit(format!("lu {kind} {s}"));
+                emit(format!("plu {kind} {s}"));
+            }
+        }
+    }
 }
